@@ -134,6 +134,19 @@ def r1_sequencing_sound_combination(ctx):
         "ast.Store": lambda: "store", "ast.Load": lambda: "load",
     }, fuel=3_000_000)
     interp.mutable_lists = True
+    interp.globals.setdefault("map", lambda f, *its: [f(*xs) for xs in zip(*[interp.iterate(i) for i in its])])
+    interp.globals.setdefault("filter", lambda f, it: [x for x in interp.iterate(it) if interp.truth(f(x) if f is not None else x)])
+    # module-level helpers the combinator calls are interpreted too (two levels)
+    frontier = [ch]
+    for _level in range(2):
+        nxt = []
+        for fn_ in frontier:
+            for nm in {n.id for n in ast.walk(fn_) if isinstance(n, ast.Name) and isinstance(n.ctx, ast.Load)}:
+                h = P.find_def(tree, nm)
+                if h is not None and isinstance(h, P.FUNC) and h is not ch and nm not in interp.globals:
+                    interp.globals[nm] = (lambda *a, _h=h: interp.call_function(_h, list(a), {}))
+                    nxt.append(h)
+        frontier = nxt
     for c in ast.walk(tree):
         if isinstance(c, ast.Assign) and isinstance(c.targets[0], ast.Name) and isinstance(c.value, ast.Constant) and isinstance(c.value.value, str) and c.targets[0].id.isupper():
             interp.globals.setdefault(c.targets[0].id, c.value.value)
